@@ -16,6 +16,10 @@ def plan(tier):
         I.append(inst(f"coords[n=2,{m},composite(2,)]", 'harness.c12', 'coords', dict(n=2, model=m, shape=(2,)), weight=4))
     for n in ([1, 2] if q else [1, 2, 3]):
         I.append(inst(f"segment[n={n}]", 'harness.c12', 'segment', dict(n=n, circle=False), weight=40 * n, timeout_s=1200))
+    for n in ([1, 2] if q else [1, 2, 3]):
+        for which in (1, 0):
+            I.append(inst(f"segment-with-ideal-endpoint[n={n},ideal endpoint {'second' if which else 'first'}]", 'harness.c12', 'segment_ideal_end', dict(n=n, which=which),
+                          weight=30 * n, timeout_s=1200))
     if not q:
         I.append(inst("segment+circle[n=2]", 'harness.c12', 'segment', dict(n=2, circle=True), weight=400, timeout_s=1500))
     I.append(inst("tangent-direction[n=1,composite(2,)]", 'harness.c12', 'tangent_composite', dict(n=1), weight=30, timeout_s=900))
